@@ -834,6 +834,48 @@ def return_of_temporary(fnode):
     return changed
 
 
+def star_of_tuple_temporaries(fnode):
+    """t = (a, b); S     with S the next statement, reading t exactly once, as `*t` among the positional arguments of a call   ->   S with `a, b` in
+    place of `*t`.  Conditions: t is a plain local bound once and read once, no nested function mentions it, and every element is a
+    name, an attribute path or a constant (nothing whose evaluation could be moved across the other arguments).  The shape a helper
+    returning a pair leaves behind when its call was `f(*helper(..))`."""
+    stores, loads = {}, {}
+    for n in ast.walk(fnode):
+        if isinstance(n, ast.Name):
+            d = stores if isinstance(n.ctx, (ast.Store, ast.Del)) else loads
+            d[n.id] = d.get(n.id, 0) + 1
+    declared = {x for n in ast.walk(fnode) if isinstance(n, (ast.Global, ast.Nonlocal)) for x in n.names}
+    nested = {x.id for n in ast.walk(fnode) if n is not fnode and isinstance(n, (ast.FunctionDef, ast.AsyncFunctionDef, ast.Lambda)) for x in ast.walk(n) if isinstance(x, ast.Name)}
+
+    def simple(e):
+        while isinstance(e, ast.Attribute):
+            e = e.value
+        return isinstance(e, (ast.Name, ast.Constant))
+    changed = False
+    for owner in ast.walk(fnode):
+        for fld in ("body", "orelse", "finalbody"):
+            lst = getattr(owner, fld, None)
+            if not (isinstance(lst, list) and lst and isinstance(lst[0], ast.stmt)):
+                continue
+            k = 0
+            while k + 1 < len(lst):
+                a_, s_ = lst[k], lst[k + 1]
+                if isinstance(a_, ast.Assign) and len(a_.targets) == 1 and isinstance(a_.targets[0], ast.Name) and isinstance(a_.value, ast.Tuple) \
+                        and all(simple(e) for e in a_.value.elts) and isinstance(s_, (ast.Return, ast.Assign, ast.Expr)):
+                    t = a_.targets[0].id
+                    if stores.get(t) == 1 and loads.get(t) == 1 and t not in declared | nested:
+                        hit = [(c, i) for c in ast.walk(s_) if isinstance(c, ast.Call) for i, x in enumerate(c.args)
+                               if isinstance(x, ast.Starred) and isinstance(x.value, ast.Name) and x.value.id == t]
+                        if len(hit) == 1:
+                            c, i = hit[0]
+                            c.args[i:i + 1] = list(a_.value.elts)
+                            del lst[k]
+                            changed = True
+                            continue
+                k += 1
+    return changed
+
+
 def arguments_of_temporaries(fnode):
     """t1 = E1; t2 = E2; S        with S a simple statement whose whole value is one call f(.., t1, .., k=t2, ..)   ->   S with E1, E2 in place
     Conditions: each t is a plain local bound once and read once - as a direct argument of that call -, the run of such bindings sits
@@ -1432,6 +1474,7 @@ def apply_synonyms(repo):
         split_tuple_assignments(f.node)
         aliases_of_configuration(repo, f)
         tests_of_temporaries(f.node)
+        star_of_tuple_temporaries(f.node)
         arguments_of_temporaries(f.node)
         return_of_temporary(f.node)
         statements_of_conditional_values(f.node)          # (after the temporaries are read in place: `x = A if c else B; return x` is `return A if c else B` first)
